@@ -118,6 +118,28 @@ def choose_method_rows():
     return rows
 
 
+def validate_reindex_rows():
+    """flox.core._validate_reindex on every point of its abstracted domain"""
+    rows = []
+    tri = {None: "None", True: "(Some true)", False: "(Some false)"}
+    for func in ["sum", "nanmax", "argmax", "nanargmin", "first", "nanlast", "median"]:
+        for dt in ("float64", "int64"):
+            for reindex in (None, True, False):
+                for method in METHS:
+                    for exp in (True, False):
+                        for bydask in (False, True):
+                            for isdask in (False, True):
+                                try:
+                                    r = fc._validate_reindex(reindex, func, method, (np.arange(3) if exp else None), bydask, isdask, np.dtype(dt))
+                                    out = f"(RStrategy {tri[r.blockwise]})"
+                                except Exception as e:  # noqa: BLE001
+                                    out = f"(RRaise {exc_lit(e)})"
+                                first_last = func in ("first", "last") or (bool(fc._is_first_last_reduction(func)) and np.dtype(dt).kind != "f")
+                                rows.append(f"  ({q(func)}, {str(bool(fc._is_arg_reduction(func))).lower()}, {str(first_last).lower()}, {tri[reindex]}, "
+                                            f"{METHS[method]}, {str(exp).lower()}, {str(bydask).lower()}, {str(isdask).lower()}, {out})")
+    return rows
+
+
 def main(out):
     srcs = ["/repo/flox/core.py", "/repo/flox/aggregations.py", "/repo/flox/xrdtypes.py"]
     h = hashlib.sha256()
@@ -142,6 +164,9 @@ def main(out):
         "Inductive choice : Type := CRet (m : meth) | CRaise (e : exc).\n"
         "(* _choose_method: (aggregation, is arg reduction, blockwise-only, requested method, planner's preference, nax == by.ndim, outcome) *)\n"
         "Definition choose_method_rows : list (string * bool * bool * option meth * meth * bool * choice) := [\n" + ";\n".join(choose_method_rows()) + "\n].\n"
+        "\nInductive rchoice : Type := RStrategy (blockwise : option bool) | RRaise (e : exc).\n"
+        "(* _validate_reindex: (func, is arg reduction, first/last without a fill, reindex argument, method, expected given, labels dask, array dask, outcome) *)\n"
+        "Definition validate_reindex_rows : list (string * bool * bool * option bool * option meth * bool * bool * bool * rchoice) := [\n" + ";\n".join(validate_reindex_rows()) + "\n].\n"
     )
     try:
         old = open(out).read()
